@@ -347,6 +347,22 @@ package slip
 //@   on-map-update vars only-exported-where-absent: $owner == obj && !$had && $value.Export && $value == pkg.vars[$key]
 //@   on-map-update funcs only-exported-where-absent: $owner == obj && !$had && $value.Export && $value == pkg.funcs[$key]
 
+// C10 / C11: next-method-p / call-next-method ask whether anything is left to
+// run after the wrapper at the current location: a wrapper further down the
+// combination list, or any primary / :before / :after method of the effective
+// method wherever it sits (the daemons all run after the last wrapper). Asking
+// does not move the location.
+//@ define daemon(c) = c.Primary != nil || c.Before != nil || c.After != nil
+//@ func slip.(*WhopLoc).HasNext
+//@   property C10 C11
+//@   requires sane-index: 0 - 1 <= wl.Current && wl.Current < 4611686018427387904
+//@   no-store Current Method
+//@   ensures later-wrapper-counts: (exists j :: wl.Current < j && j < len(wl.Method.Combinations) && wl.Method.Combinations[j].Wrap != nil) ==> result0
+//@   ensures daemon-anywhere-counts: (exists j :: 0 <= j && j < len(wl.Method.Combinations) && daemon(wl.Method.Combinations[j])) ==> result0
+//@   ensures only-those: result0 ==> ((exists j :: wl.Current < j && j < len(wl.Method.Combinations) && wl.Method.Combinations[j].Wrap != nil) || (exists j :: 0 <= j && j < len(wl.Method.Combinations) && daemon(wl.Method.Combinations[j])))
+//@   loop i<len: invariant no-wrapper-so-far: wl.Current < i && (forall j :: (wl.Current < j && j < i) ==> wl.Method.Combinations[j].Wrap == nil)
+//@   loop rangeindex: invariant no-daemon-so-far: (forall j :: (0 <= j && j <= rangeindex) ==> !daemon(wl.Method.Combinations[j])) && (forall j :: (wl.Current < j && j < len(wl.Method.Combinations)) ==> wl.Method.Combinations[j].Wrap == nil)
+
 // ---------------------------------------------------------------------------
 // C11: whoppers. continue-whopper runs the next wrapper in combination order
 // and reaches the daemons only when no wrapper is left.
@@ -358,10 +374,6 @@ package slip
 //@   on-call InnerCall no-wrapper-left: forall j :: (old(wl.Current) < j && j < len(wl.Method.Combinations)) ==> wl.Method.Combinations[j].Wrap == nil
 //@   loop wl.Current: invariant scanned: old(wl.Current) < wl.Current && wl.Method == old(wl.Method) && (forall j :: (old(wl.Current) < j && j < wl.Current) ==> wl.Method.Combinations[j].Wrap == nil)
 
-// asking whether a next method exists does not move the location
-//@ func slip.(*WhopLoc).HasNext
-//@   property C11 C10
-//@   no-store Current
 //@ func slip.(*Method).HasMethodFromClass
 //@   property C11
 //@   ensures absent: !result0 ==> (forall j :: (0 <= j && j < len(m.Combinations) && m.Combinations[j].From != nil) ==> Name(m.Combinations[j].From) != from)
